@@ -658,6 +658,8 @@ fn run_one(dir: &Path, i: &Input, exec: Option<bool>) -> Outcome {
 }
 
 fn worker(inputs: &[Input], k: usize, n: usize) {
+    // warm-up in the parent: lazily initialised statics (lexer, regexes) are then inherited by every forked child
+    let _ = run_typecheck("const int C0 = 3;\nscript s0 {\n    ins_900(C0 + 1);\n}\n");
     let dir = work_dir("c04").join(format!("fw{}", k)); let _ = std::fs::create_dir_all(&dir);
     let mut cnt = 0usize; let mut ok0 = 0usize;
     for (i, inp) in inputs.iter().enumerate() {
